@@ -7,6 +7,10 @@ import EmuVerif.Props.C27
 #print axioms EmuVerif.Props.C27.earlyReplace_counterexample
 #print axioms EmuVerif.Props.C27.earlyReplace_not_crash_safe
 #print axioms EmuVerif.Props.C27.earlyReplace_completes
+#print axioms EmuVerif.Props.C27.current_exception_safe
+#print axioms EmuVerif.Props.C27.finallyReplace_counterexample
+#print axioms EmuVerif.Props.C27.finallyReplace_same_ops
+#print axioms EmuVerif.Props.C27.aliased_counterexample
 #print axioms EmuVerif.Props.C27.threeStep_counterexample
 #print axioms EmuVerif.Props.C27.threeStep_not_crash_safe
 #print axioms EmuVerif.Props.C27.threeStep_data_not_lost
